@@ -61,6 +61,18 @@ def _hook(ev, args):
 sys.addaudithook(_hook)
 """
 IMPORTS = "from pysnark.runtime import PrivVal, PubVal\nfrom pysnark.branching import if_then_else\n"
+# a counter on the proving step of the backend in effect, installed by the script after the import (the way an application
+# would wrap or replace its backend); its reading is written by an exit handler registered before pysnark's, i.e. run after it
+OBSERVE_PRE = "import atexit\n_PC = [0]\natexit.register(lambda: open('prove_calls.txt', 'w').write(str(_PC[0])))\n"
+OBSERVE = {
+    "wrap": ("import pysnark.runtime as _rt\n_op = _rt.backend.prove\ndef _counted(*a, **k):\n    _PC[0] += 1\n    return _op(*a, **k)\n"
+             "_rt.backend.prove = _counted\n"),
+    "proxy": ("import pysnark.runtime as _rt\nclass _Proxy:\n    def __init__(self, m): self.__dict__['_m'] = m\n"
+              "    def __getattr__(self, n): return getattr(self.__dict__['_m'], n)\n"
+              "    def __setattr__(self, n, v): setattr(self.__dict__['_m'], n, v)\n"
+              "    def prove(self, *a, **k):\n        _PC[0] += 1\n        return self.__dict__['_m'].prove(*a, **k)\n"
+              "_rt.backend = _Proxy(_rt.backend)\n"),
+}
 CONTROL_IMPORTS = "PrivVal = PubVal = lambda v: v\nif_then_else = lambda c, a, b: a\nclass _V(int):\n    def val(self): return self\n"
 
 
@@ -69,7 +81,7 @@ PRE_IMPORT = {
 }
 
 
-def make_script(stmts, k, mode, control=False):
+def make_script(stmts, k, mode, control=False, observe=None):
     body = list(stmts[:k])
     ins = MODES[mode][0]
     if control:
@@ -77,7 +89,7 @@ def make_script(stmts, k, mode, control=False):
         if ins and mode != "autoprove_off":
             lines.append(ins)
         return "\n".join(lines) + "\n"
-    src = PRELUDE + PRE_IMPORT.get(mode, "") + IMPORTS + "\n".join(body) + "\n"
+    src = PRELUDE + (OBSERVE_PRE if observe else "") + PRE_IMPORT.get(mode, "") + IMPORTS + (OBSERVE[observe] if observe else "") + "\n".join(body) + "\n"
     if ins:
         src += ins + "\n"
     if MODES[mode][1] is None or mode == "fall_off":
@@ -106,7 +118,7 @@ def main():
                 for mode in MODES:
                     if mode == "fall_off" and k != len(st):
                         continue
-                    runs.append(dict(backend=be, script=si, stmts=st, k=k, mode=mode))
+                    runs.append(dict(backend=be, script=si, stmts=st, k=k, mode=mode, observe=[None, "wrap", None, "proxy"][(k + len(runs)) % 4]))
     common.rng(PROP, "order").shuffle(runs)
     nshards = 16
     jobs = [dict(seed="%d/%s/%d" % (common.seed(), PROP, s), runs=runs[s::nshards]) for s in range(nshards)]
@@ -167,7 +179,14 @@ def worker(job):
         arts = BACKENDS[be]
         wd = tempfile.mkdtemp(prefix="c18-", dir=home)
         try:
-            rc, err, out = run_script(make_script(st, k, mode), wd, be)
+            observe = run.get("observe")
+            rc, err, out = run_script(make_script(st, k, mode, observe=observe), wd, be)
+            proved = None
+            if observe:
+                try:
+                    proved = int(open(os.path.join(wd, "prove_calls.txt")).read())
+                except (OSError, ValueError):
+                    proved = -1
             present = {a: os.path.exists(os.path.join(wd, a)) for a in arts}
             blobs = {a: open(os.path.join(wd, a), "rb").read() for a in arts if present[a]}
             writes = audit_counts(wd)
@@ -194,6 +213,13 @@ def worker(job):
             R.violation("exit-status-altered:" + mode, "exit status %s, the same termination without pysnark gives %s" % (rc, crc), **det)
         if hook_failed:
             R.violation(classify_hook(mode, err), "the exit hook failed / printed a traceback: %s" % err.strip().splitlines()[-1][:160], **det)
+        if proved is not None:
+            R.count("proving_step_call_counts_observed")
+            want = 1 if success is True else 0
+            det["prove_calls"] = proved
+            if proved != want:
+                R.violation(("proving-step-ran-%d-times:%s" % (proved, mode)) if success is not False else classify_fail(mode),
+                            "the proving step of the backend in effect ran %d time(s) at exit, expected %d (%s, counter installed by %s)" % (proved, want, mode, observe), **det)
         if success is True:
             R.count("success_runs_judged")
             # reference: the first k statements falling off the end (for fall_off: the whole script)
